@@ -172,6 +172,13 @@ ben('stat-from-vector-size', 'File.cpp', [["        logContainer.internalHeaderS
 mut('stat-from-moved-vector', 'File.cpp', [["        logContainer.internalHeaderSize() +\n        logContainer.uncompressedFileSize;", "        logContainer.internalHeaderSize() +\n        logContainer.uncompressedFile.size();"]],
     ['C05'], ['H1|File::uncompressedFile2CompressedFile'], 'two cooperating sites: statistic from the vector size + compress() moving the vector out (level 0 only)')
 M[-1]['extra_edits'] = [('LogContainer.cpp', [["        compressedFile = uncompressedFile;\n        compressedFileSize = uncompressedFileSize;", "        compressedFile = std::move(uncompressedFile);\n        compressedFileSize = uncompressedFileSize;"]])]
+ben('good-check-explicit-false', 'File.cpp', [["    obj->read(m_uncompressedFile);\n    if (!m_uncompressedFile.good()) {", "    obj->read(m_uncompressedFile);\n    if (m_uncompressedFile.good() == false) {"]], ['C08', 'C01', 'C13', 'C11', 'C10'])
+ben('factory-return-style', 'File.cpp', [["    case ObjectType::CAN_ERROR:\n        obj = new CanErrorFrame();\n        break;", "    case ObjectType::CAN_ERROR:\n        return new CanErrorFrame();"]], ['C17', 'C01'])
+ben('close-statistics-reordered', 'File.cpp', [["        fileStatistics.fileSize = static_cast<uint64_t>(m_compressedFile.tellp());\n        fileStatistics.uncompressedFileSize = currentUncompressedFileSize;\n        fileStatistics.objectCount = currentObjectCount;", "        fileStatistics.objectCount = currentObjectCount;\n        fileStatistics.uncompressedFileSize = currentUncompressedFileSize;\n        fileStatistics.fileSize = static_cast<uint64_t>(m_compressedFile.tellp());"]], ['C05', 'C04', 'C13'])
+ben('stream-read-renamed-locals', 'UncompressedFile.cpp', [["        std::streamoff offset = m_tellg - logContainer->filePosition;\n\n        /* copy data */\n        std::streamsize gcount = std::min(n, static_cast<std::streamsize>(logContainer->uncompressedFileSize - offset));\n        std::copy(logContainer->uncompressedFile.cbegin() + offset, logContainer->uncompressedFile.cbegin() + offset + gcount, s);\n\n        /* remember get count */\n        m_gcount += gcount;\n\n        /* new get position */\n        m_tellg += gcount;\n\n        /* advance */\n        s += gcount;\n\n        /* calculate remaining data to copy */\n        n -= gcount;",
+                                                                   "        std::streamoff off = m_tellg - logContainer->filePosition;\n\n        /* copy data */\n        std::streamsize cnt = std::min(n, static_cast<std::streamsize>(logContainer->uncompressedFileSize - off));\n        std::copy(logContainer->uncompressedFile.cbegin() + off, logContainer->uncompressedFile.cbegin() + off + cnt, s);\n\n        /* remember get count */\n        m_gcount += cnt;\n\n        /* new get position */\n        m_tellg += cnt;\n\n        /* advance */\n        s += cnt;\n\n        /* calculate remaining data to copy */\n        n -= cnt;"]], ['C10', 'C11', 'C07', 'C06'])
+ben('header-guard-positive-form', 'File.cpp', [["    if (ohb.objectSize < ohb.calculateHeaderSize()) {\n        /* an object cannot be smaller than its header; skipping by such a size would never advance */\n        throw Exception(\"File::uncompressedFile2ReadWriteQueue(): Object size is smaller than the object header.\");\n    }\n",
+                                                  "    if (!(ohb.objectSize >= ohb.calculateHeaderSize())) {\n        throw Exception(\"File::uncompressedFile2ReadWriteQueue(): Object size is smaller than the object header.\");\n    }\n"]], ['C10', 'C09', 'C08', 'C01'])
 ben('factory-without-parens', 'File.cpp', [["        obj = new CanErrorFrame();", "        obj = new CanErrorFrame;"]], ['C17', 'C01'])
 ben('compression-branch-inverted', 'File.cpp', [["    if (compressionLevel == 0) {\n        /* no compression */\n        logContainer.compress(0, 0);\n    } else {\n        /* zlib compression */\n        logContainer.compress(2, compressionLevel);\n    }", "    if (compressionLevel != 0) {\n        /* zlib compression */\n        logContainer.compress(2, compressionLevel);\n    } else {\n        /* no compression */\n        logContainer.compress(0, 0);\n    }"]], PIPE)
 
